@@ -1,16 +1,16 @@
 SPECIFICATION Spec
 CONSTANTS
-  K = 2
+  K = 1
   SrcEnds = {"eof", "err"}
   IniEnds = {"closesend", "cancel"}
   Faults = {"unkMsg", "unkAck", "tgtSendFail", "srcSendFail", "openFail"}
   Lifetime = TRUE
-  Post = FALSE
+  Post = TRUE
   Syncs = {TRUE, FALSE}
   RaceHandoff = TRUE
   LatchMsg = TRUE
   LatchAck = TRUE
-  CloseSendOnExit = TRUE
-  CancelOnReturn = TRUE
-PROPERTIES EndTogether Complete
+  CloseSendOnExit = FALSE
+  CancelOnReturn = FALSE
+INVARIANTS InOrder NoUnknownForwarded NoStuck EveryScriptEnds
 CHECK_DEADLOCK FALSE
